@@ -309,7 +309,9 @@ Section Acc.
     Forall2 tracked (map (add_steps (kind_steps k d)) prov) m'.
   Proof.
     intros ([Hrp Him] & Hns & Hn & _ & _ & _ & Hp & Hs) HT Hd. pose proof (Forall2_tracked_W _ _ HT) as HW.
-    unfold run_kind, kind_steps. rewrite Hrp, Him.
+    unfold run_kind, kind_steps. rewrite Hrp, Him, (proj2 Hn).
+    destruct (String.eqb_spec k "PatchTransformer") as [->|N0].
+    { cbn. intros H; inv H. rewrite add_steps_nil. assumption. }
     destruct (String.eqb k "NamespaceTransformer"); [intros H; eapply namespace_tracked; eauto|].
     destruct (String.eqb k "PrefixTransformer"); [intros H; eapply prefix_tracked; eauto|].
     destruct (String.eqb k "SuffixTransformer"); [intros H; eapply suffix_tracked; eauto|].
